@@ -81,6 +81,8 @@ class Recorder:
             "exp": ("us", exp) if exp is not None else NO_TIME,
             "dl": ("us", max(due if due is not None else 0, CLOCK.us) + self.latency_us) if self.latency_us is not None else NO_TIME,
             "ver": self.content(key, payload, params),
+            # the due time floored to the whole second (what a broker that keeps whole-second scores compares with)
+            "dues": ("us", due - due % 1_000_000) if due is not None else NO_TIME,
         }
 
     # ---- events -------------------------------------------------------------------------
@@ -98,7 +100,7 @@ class Recorder:
         self.callinfo[k] = {"op": op, "c": c, "i": i}
         self.open_calls.add(k)
         self.emit({"e": "begin", "k": k, "op": op, "c": c, "i": i,
-                   "m": m or {"q": 0, "topic": 0, "prio": 0, "due": 0, "exp": 0, "dl": 0, "ver": 0, "tried": 0,
+                   "m": m or {"q": 0, "topic": 0, "prio": 0, "due": 0, "exp": 0, "dl": 0, "ver": 0, "dues": 0, "tried": 0,
                               "forced": 0, "bo": 0, "oldexp": 0, "nowP": 0, "schedP": 0, "ts": 0}})
         return k
 
@@ -243,7 +245,7 @@ class Recorder:
                     return await orig(*a, **kw)
                 m = None
                 if name == "consume" and rec.latency_us is not None:
-                    m = {"q": 0, "topic": 0, "prio": 0, "due": 0, "exp": 0, "ver": 0, "dl": ("us", CLOCK.us + rec.latency_us)}
+                    m = {"q": 0, "topic": 0, "prio": 0, "due": 0, "exp": 0, "ver": 0, "dues": 0, "dl": ("us", CLOCK.us + rec.latency_us)}
                 k = rec.begin(name, c, 0, m)
                 if name == "start":
                     s = rec.on_cons.setdefault(q, set())
